@@ -177,6 +177,23 @@ func (m *mediaCtx) analyse(fn *ssa.Function, isList func(ssa.Value) bool, isReqP
 					why = ""
 				}
 			}
+			if why == "" {
+				// the condition was computed into a variable first (`ok := a || b; if ok {`): no single edge carries
+				// the reason, every path into the block does
+				if paths, okP := enumPaths(fn, vr.Block, 600); okP && len(paths) > 0 {
+					all := true
+					w := ""
+					for _, pa := range paths {
+						if w = m.reason(pa.Facts, isList, isReqParam); w == "" {
+							all = false
+							break
+						}
+					}
+					if all {
+						why = w
+					}
+				}
+			}
 			m.npos++
 			if why == "" {
 				m.nbad++
